@@ -125,6 +125,26 @@ static void judge_text(const std::string& t, const Cfg& c, const char* workload,
         std::string kind = d.substr(d.find(": ") + 2); kind = kind.substr(0, kind.find(' ', kind.find(' ') + 1));
         H.violation(std::string("parser/") + c.name + "/wrong-value/" + kind, J().str("text", t.substr(0, 400)).str("why", d.substr(0, 300)).str("got", describe(v).substr(0, 300)).done());
     }
+    // the same text through the wide-character parser: accepted, and the value it holds - written back and narrowed by a UTF-32 -> UTF-8
+    // conversion of the monitor's own - is the value the narrow parser produced
+    if (std::string(workload) != "exhaustive" || (hash_str(t) & 7) == 0) {
+        std::wstring wt; bool convertible = true;
+        for (size_t i = 0; i < t.size();) { unsigned char ch = (unsigned char)t[i]; uint32_t cp; int n; if (ch < 0x80) { cp = ch; n = 1; } else if (ch >= 0xc2 && ch < 0xe0) { cp = ch & 0x1f; n = 2; } else if (ch >= 0xe0 && ch < 0xf0) { cp = ch & 0x0f; n = 3; } else if (ch >= 0xf0 && ch < 0xf5) { cp = ch & 0x07; n = 4; } else { convertible = false; break; }
+            if (i + (size_t)n > t.size()) { convertible = false; break; } for (int k = 1; k < n; ++k) { unsigned char c2 = (unsigned char)t[i + (size_t)k]; if ((c2 & 0xc0) != 0x80) { convertible = false; break; } cp = (cp << 6) | (c2 & 0x3f); } if (!convertible) break; wt.push_back((wchar_t)cp); i += (size_t)n; }
+        if (convertible) {
+            wjson_options wo; wo.allow_comments(c.comments).allow_trailing_comma(c.trailing).max_nesting_depth(c.depth);
+            if (c.subst_names_no_inverse) { wo.nan_to_str(L"NaN", false); wo.inf_to_str(L"Inf", false); wo.neginf_to_str(L"NegInf", false); }
+            H.count_(std::string(workload) + ".wide_parser_texts");
+            try { wojson wv = wojson::parse(wt, wo); std::wstring back; { wjson_options wd; wd.max_nesting_depth(1 << 20); wv.dump(back, wd); }
+                std::string nb; for (wchar_t wc : back) put_utf8(nb, (uint32_t)wc);
+                json_options ro; ro.max_nesting_depth(1 << 20);
+                ojson again = ojson::parse(nb, ro); std::string d1 = describe(again), d2 = describe(v);
+                // numbers are re-read from text here: compare after one narrow round trip of the narrow value as well
+                std::string vb; v.dump(vb, ro); std::string d3 = describe(ojson::parse(vb, ro));
+                if (d1 != d3) H.violation(std::string("parser/") + c.name + "/wide-parser-value-differs", J().str("text", t.substr(0, 400)).str("wide", d1.substr(0, 300)).str("narrow", d3.substr(0, 300)).done()); (void)d2; }
+            catch (const std::exception& e) { H.violation(std::string("parser/") + c.name + "/valid-rejected/wide-parser", J().str("text", t.substr(0, 400)).str("what", e.what()).done()); }
+        }
+    }
     // the same text into the sorted-object policy (duplicate names: the first one wins there too) and into wide characters
     if (std::string(workload) != "exhaustive" || t.find('{') != std::string::npos) {
         try { json sv = json::parse(t, o); std::string ds = val_diff(exp, sv); H.count_(std::string(workload) + ".sorted_policy_values");
